@@ -102,7 +102,12 @@ func ibRun(args []string) error {
 		// the library's own strategy (ParsedEd25519KeySigningStrategy): with a sound key, and with a private key whose halves
 		// disagree (seed of one key, cached public half of another) - the signature it makes verifies under no key
 		{"padded"}, {"short"}, {"match", "padded", "match"},
-		{"builtin"}, {"builtinbad"}, {"builtin", "builtinbad", "match"}, {"match", "builtinbad"}}
+		{"builtin"}, {"builtinbad"}, {"builtin", "builtinbad", "match"}, {"match", "builtinbad"},
+		// "counter": ONE signer object for the whole run (a counter-signing service: the same IntegrityBlockSigner value is pointed
+		// at bundle after bundle - WebBundleHash and IntegrityBlock replaced - and adds its signature on top of the developer's)
+		// (consecutive uses of that object meet blocks of equal depth - the sequence is listed twice - and of different depth)
+		{"match", "counter"}, {"match", "counter"}, {"match", "match", "counter"}, {"match", "match", "counter"}, {"counter", "match"}, {"match", "counter", "counter"}}
+	counter := &integrityblock.IntegrityBlockSigner{}
 	sizes := []int{8, 9, 100, 1000, 70000}
 	if thorough {
 		sizes = append(sizes, 0, 3, 7, 64, 65536, 300000)
@@ -151,9 +156,18 @@ func ibRun(args []string) error {
 						if id%2 == 0 {
 							ibs = &integrityblock.IntegrityBlockSigner{WebBundleHash: hash, IntegrityBlock: ib}
 						}
+						if mode == "counter" {
+							key = keys[2]
+							st = &ibStrategy{priv: key.priv, pub: key.pub, mode: "match"}
+							counter.WebBundleHash, counter.IntegrityBlock = hash, ib
+							ibs = counter
+						}
 						ibs.SigningStrategy = st
 						pub, _ := st.GetPublicKey()
 						logged := mode
+						if mode == "counter" {
+							logged = "match"
+						}
 						if mode == "builtin" || mode == "builtinbad" {
 							pk := append(ed25519.PrivateKey{}, key.priv...)
 							if mode == "builtinbad" {
